@@ -195,7 +195,7 @@ unsafe fn send_copy<S: Service>(
         // defined size and alignment.
         let mut sample = match publisher.loan_custom_payload(1) {
             Ok(sample) => sample,
-            Err(e) => return e.into_c_int(),
+            Err(e) => return SendError::LoanError(e).into_c_int(),
         };
 
         if sample.payload().len() < size_of_element {
@@ -226,7 +226,7 @@ unsafe fn send_slice_copy<S: Service>(
     unsafe {
         let mut sample = match publisher.loan_custom_payload(number_of_elements) {
             Ok(sample) => sample,
-            Err(e) => return e.into_c_int(),
+            Err(e) => return SendError::LoanError(e).into_c_int(),
         };
 
         let data_len = size_of_element * number_of_elements;
